@@ -12,7 +12,7 @@ import heapq
 import itertools
 
 from framework import Issue
-from world import Item, Susp, UserBaseExc, UserExc, asyncstdlib, canon, drive, exc_name
+from world import Item, Susp, UserBaseExc, UserExc, asyncstdlib, canon, drive, exc_name, user_exc
 
 A = asyncstdlib
 CANCEL = 4242
@@ -375,10 +375,16 @@ class Run:
         if mode == "normal":
             args = (None, None, None)
         elif mode == "cancel":
-            exc = UserBaseExc(CANCEL)
+            # what "the block is left by cancellation / tear-down" looks like to __aexit__: a BaseException that is
+            # not an Exception.  Rotate deterministically through the ones a scope really meets: an injected one,
+            # GeneratorExit (the block sits in an async generator that is being closed), asyncio's CancelledError,
+            # KeyboardInterrupt.  The scope must close the underlying iterator for every one of them.
+            import asyncio
+            k = (len(self.case["ops"]) + c) % 4
+            exc = [UserBaseExc(CANCEL), GeneratorExit(), asyncio.CancelledError(), KeyboardInterrupt()][k]
             args = (type(exc), exc, None)
         else:
-            exc = UserExc(mode[1])
+            exc = user_exc(mode[1])
             args = (type(exc), exc, None)
         res = drive(cm.__aexit__(*args))
         if res.exc is not None:
@@ -635,6 +641,56 @@ def _conc_cases():
                                    "mode": mode, "pre": pre}
 
 
+# ---------------------------------------------------------------------------------------------
+# the internal lightweight borrow of _core.py (used by islice and by nlargest / nsmallest): the helper generator that
+# consumes the borrowed view (enumerate / zip over a range) finishes early and is closed — that must never reach the
+# tool's own source, whatever methods the source has (asend/athrow or not, aclose or not)
+
+
+def _coreborrow_cases():
+    for kind in U_KINDS:
+        for n in (3, 6):
+            yield {"family": "coreborrow", "u": mk_u(kind, n), "ops": [], "tool": ["islice", 1, None, 1]}
+            yield {"family": "coreborrow", "u": mk_u(kind, n), "ops": [], "tool": ["islice", 2, 5, 2]}
+            yield {"family": "coreborrow", "u": mk_u(kind, n), "ops": [], "tool": ["nlargest", 2]}
+            yield {"family": "coreborrow", "u": mk_u(kind, n), "ops": [], "tool": ["nsmallest", 1]}
+
+
+def _observe_coreborrow(case):
+    import heapq
+    import itertools as it
+    log = []
+    u = make_u(case["u"], log)
+    items = [Item(e[1], e[2]) for e in case["u"]["script"] if e[0] == "i"]
+    t = case["tool"]
+    if t[0] == "islice":
+        got = _res(drive(A.list(A.islice(u, t[1], t[2], t[3]))))
+        want = [x.id for x in it.islice(items, t[1], t[2], t[3])]
+        need = len(items) if t[2] is None else min(len(items), t[2])
+    else:
+        f = A.nlargest if t[0] == "nlargest" else A.nsmallest
+        got = _res(drive(f(u, t[1], key=lambda x: x.key)))
+        want = [x.id for x in (heapq.nlargest if t[0] == "nlargest" else heapq.nsmallest)(t[1], items, key=lambda x: x.key)]
+        need = len(items)
+    first_close = next((i for i, ev in enumerate(log) if ev == "close"), None)
+    pulls_before_close = _npulls(log if first_close is None else log[:first_close])
+    return {"core": {"got": got, "want": want, "need": need, "pulls_before_close": pulls_before_close,
+                     "pulls": _npulls(log), "closed": first_close is not None},
+            "ops": [], "drain": [], "mops": []}
+
+
+def _judge_coreborrow(case, obs):
+    c = obs["core"]
+    issues = []
+    if c["closed"] and c["pulls_before_close"] < c["need"]:
+        issues.append(Issue("oracle", c, "underlying-closed-through-internal-borrow:" + case["tool"][0]))
+    got = c["got"]
+    ids = [v[1] for v in got[1][1:]] if isinstance(got, list) and got[0] == "value" and got[1][0] == "l" else got
+    if ids != c["want"]:
+        issues.append(Issue("oracle", dict(c, ids=ids), "items-lost-through-internal-borrow:" + case["tool"][0]))
+    return issues
+
+
 _CACHE = {}
 
 
@@ -645,13 +701,15 @@ def _key_of(case):
 def observe(case):
     if case.get("family") == "conc":
         return _observe_conc(case)
+    if case.get("family") == "coreborrow":
+        return _observe_coreborrow(case)
     obs = Run(case).run()
     _CACHE[_key_of(case)] = (case, obs["mops"])
     return obs
 
 
 def model_request(case):
-    if case.get("family") == "conc":
+    if case.get("family") in ("conc", "coreborrow"):
         return None
     hit = _CACHE.get(_key_of(case))
     if hit is None or hit[0] is not case:
@@ -786,6 +844,8 @@ def oracle(case, obs):
 def judge(case, obs, model):
     if case.get("family") == "conc":
         return _judge_conc(case, obs)
+    if case.get("family") == "coreborrow":
+        return _judge_coreborrow(case, obs)
     issues = oracle(case, obs)
     issues += ref_issues(case, obs)
     if model is not None:
@@ -912,6 +972,8 @@ def ref_issues(case, obs):
 
 
 def features(case, obs):
+    if case.get("family") == "coreborrow":
+        return ["family=coreborrow", "coreborrow:" + case["tool"][0], "u=" + case["u"]["kind"]]
     if case.get("family") == "conc":
         c = obs["conc"]
         return ["family=conc", "conc-close-" + ("accepted" if c["closed_ok"] else "refused"),
@@ -942,6 +1004,8 @@ def features(case, obs):
 
 
 def nontrivial(case, obs):
+    if case.get("family") == "coreborrow":
+        return obs["core"]["pulls"] > 0
     if case.get("family") == "conc":
         return obs["conc"]["suspended"]
     through = any(op[0] in ("next", "send", "tool") and op[1] is not None and any(
@@ -1052,6 +1116,7 @@ def random_seq(rng, nops, cancel_ok, scopes=False, has_close=True):
 def cases(tier, rng):
     quick = tier == "quick"
     yield from _conc_cases()
+    yield from _coreborrow_cases()
     small_tools = [{"name": "islice", "take": 1, "fin": "close", "p": {"n": 2}}]
     n = 0
     for seq in exhaustive(5 if quick else 6, small_tools):
@@ -1084,8 +1149,9 @@ def cases(tier, rng):
 
 def search_cases(broken, rng):
     yield from _conc_cases()
+    yield from _coreborrow_cases()
     for case in broken:
-        if case.get("family") == "conc":
+        if case.get("family") in ("conc", "coreborrow"):
             continue
         for kind in U_KINDS:
             u = dict(kind, script=case["u"]["script"])
